@@ -520,9 +520,22 @@ struct V : RecursiveASTVisitor<V> {
           if (P && isa<DeclStmt>(P)) continue;
           if (P && isa<ReturnStmt>(P)) continue;
           if (isa<Expr>(S) && !P) continue;   // member-initialiser expressions (handled above)
-          if (isa<Expr>(S) && P && (isa<IfStmt>(P) || isa<WhileStmt>(P) || isa<DoStmt>(P) || isa<SwitchStmt>(P))) {
+          if (isa<ExprWithCleanups>(S)) continue;   // its sub-expression is an element of its own
+          if (isa<Expr>(S) && P) {
             // condition expressions are reported through "cond"
-            continue;
+            const Stmt *Cnd = nullptr;
+            if (auto *X1 = dyn_cast<IfStmt>(P)) Cnd = X1->getCond();
+            else if (auto *X2 = dyn_cast<WhileStmt>(P)) Cnd = X2->getCond();
+            else if (auto *X3 = dyn_cast<DoStmt>(P)) Cnd = X3->getCond();
+            else if (auto *X4 = dyn_cast<SwitchStmt>(P)) Cnd = X4->getCond();
+            if (Cnd) {
+              const Stmt *Q = S;
+              bool isCond = false;
+              // S (or a cleanup wrapper above it) is the condition itself
+              for (const Stmt *W = S; W; W = PM.getParent(W)) { if (W == Cnd) { isCond = true; break; } if (!isa<ExprWithCleanups>(PM.getParent(W)) && !isa<ParenExpr>(PM.getParent(W)) && PM.getParent(W) != Cnd) break; }
+              (void)Q;
+              if (isCond) continue;
+            }
           }
           if (isa<Expr>(S) && P && isa<ForStmt>(P) && cast<ForStmt>(P)->getCond() == S) continue;
           json::Object so;
